@@ -139,6 +139,8 @@ struct VSolver : mp::BasicSolver {
     AddStoredOption("alg:m meth method", "Stored int option with two inline synonyms.", m);
     AddIntOption("pri:*:w pri_*_w wp*", "Wildcard int option; the second synonym has another head/tail shape.", &VSolver::GetW, &VSolver::SetW, 0);
     AddOptionSynonyms_OutOfLine("o:s ostr", "s");
+    AddOptionSynonyms_Inline_Back("sb1 sb2", "s");      // synonyms attached after the option was created, as backends do
+    AddOptionSynonyms_Inline_Front("sf1 sf2", "s");
     set_output_handler(&oh);
     if (collecting) set_error_handler(&eh);
   }
@@ -347,7 +349,9 @@ static void build_alphabet() {
   { // string, incl. the out-of-line synonym "o:s ostr" of s
     const NF nfs[] = {{"s", "canonical", 0, false}, {"S", "canonical-upper", 0, false}, {"o:s", "outofline-synonym", 0, false},
                       {"O:S", "outofline-synonym-upper", 0, false}, {"ostr", "outofline-inline-synonym", 0, false},
-                      {"OSTR", "outofline-inline-synonym-upper", 0, false}};
+                      {"OSTR", "outofline-inline-synonym-upper", 0, false}, {"sb1", "inline-back-synonym1", 0, false},
+                      {"SB2", "inline-back-synonym2-upper", 0, false}, {"sf1", "inline-front-synonym1", 0, false},
+                      {"Sf2", "inline-front-synonym2-mixed", 0, false}};
     for (auto& nf : nfs) {
       for (auto& sp : seps) for (auto& v : svals) {
         Item it; it.kind = K_SET; it.opt = O_S; it.form = nf.form; it.sep = sp.name; it.vcls = v.c;
@@ -390,7 +394,7 @@ static void build_alphabet() {
   static const char* REDUCED[] = {
     "n=0", "n=-7", "n=42", "n=99999999999", "N=42", "N=0", "n=?", "n 42",
     "d=1.5", "d=-2e3", "d=1e400", "D=1.5", "D=-2e3", "d=?", "d = 1.5",
-    "s=abc", "s='a b'", "s=\"q'q\"", "s=''", "s=?x", "s=r\xc3\xa9s.log", "s=run_{id}.log", "s=}{0}", "S=abc", "o:s='a b'", "O:S=abc", "ostr=\"q'q\"", "OSTR=''", "OSTR=abc", "s=?", "s 'a b'",
+    "s=abc", "s='a b'", "s=\"q'q\"", "s=''", "s=?x", "s=r\xc3\xa9s.log", "s=run_{id}.log", "s=}{0}", "S=abc", "o:s='a b'", "O:S=abc", "ostr=\"q'q\"", "OSTR=''", "OSTR=abc", "s=?", "s 'a b'", "sb1=abc", "SB2=abc", "sf1=abc", "Sf2='a b'",
     "f", "F", "f=1", "f=?",
     "alg:m=0", "alg:m=-7", "alg:m=42", "alg:m=99999999999", "ALG:M=42", "meth=0", "METH=-7", "METH=42", "method=42", "method=-7",
     "Method=0", "meth=?", "meth 42",
@@ -599,7 +603,17 @@ static void run_history(ACtx& cx, const std::vector<Step>& h, bool full_family, 
       Observed ob2 = execute(fresh, so, collecting, true, true);
       fresh_checked = true;
       if (!(ob2.st == ob.st) || ob2.nerr != ob.nerr || ob2.threw != ob.threw || ob2.ret_ok != ob.ret_ok) {
-        if (!silent) COUNT("A_reused_vs_fresh_object_divergence", 1);
+        if (!silent) {
+          COUNT("A_reused_vs_fresh_object_divergence", 1);
+          // parsing must not depend on what the same solver object parsed before (values are reset between histories): a
+          // reused object that stores, reports or returns something else than a fresh one carries state from an earlier call
+          std::string what = !(ob2.st == ob.st) ? "stored values" : ob2.nerr != ob.nerr ? "error reports" : ob2.threw != ob.threw ? "exception" : "return value";
+          violation("history on a reused solver object differs from the same history on a fresh object in its " + what +
+                    " (state carried over from an earlier ParseOptions call)",
+                    history_json(h, so, collecting) + ",\"reused_returned_ok\":" + (ob.ret_ok ? "true" : "false") + ",\"fresh_returned_ok\":" +
+                    (ob2.ret_ok ? "true" : "false") + ",\"reused_error_calls\":" + std::to_string(ob.nerr) + ",\"fresh_error_calls\":" +
+                    std::to_string(ob2.nerr) + ",\"reused\":" + ob.st.json() + ",\"fresh\":" + ob2.st.json() + "}", replay_json(h, collecting));
+        }
         ob = ob2; bad = judge(h, ob, collecting, exp, exp_err);
       }
     }
